@@ -3,6 +3,7 @@ package main
 // Verification-condition generator: go/ssa function -> passive-form SMT definitions + obligations.
 
 import (
+	"math/big"
 	"fmt"
 	"go/token"
 	"go/types"
@@ -148,6 +149,9 @@ type gen struct {
 	epochVars map[string]string
 	epochs map[string]*epochInfo
 	callSeq  int
+	privParams map[*ssa.Parameter]bool // list parameters the contract declares private (and the body treats so)
+	privViolations []string
+	privLists map[*ssa.Call]bool // lists made by list.New() that never leave this function's hands
 	siteInstr ssa.Instruction        // the call a site assertion is being evaluated at
 	siteOrd   map[ssa.Instruction]int // ordinal of each call among the calls to the same name, in source order
 	roCondTerm string
@@ -616,6 +620,19 @@ func (g *gen) privateKeep(name, r string) string {
 			eqs = append(eqs, sEq(r, t))
 		}
 	}
+	if name == listLenHeap {
+		for c := range g.privLists {
+			if t, ok := g.vals[c]; ok {
+				eqs = append(eqs, sEq(r, t))
+			}
+		}
+	} else if name == listValHeap {
+		for c := range g.privLists {
+			if t, ok := g.vals[c]; ok {
+				eqs = append(eqs, sEq(app("elList", r), t))
+			}
+		}
+	}
 	if len(eqs) == 0 {
 		return "false"
 	}
@@ -668,6 +685,144 @@ func (g *gen) privateAnalysis() {
 			}
 		}
 	}
+}
+
+// privateListAnalysis: a list made by list.New() stays private to this function as long as it is only handed
+// to container/list methods and to callees under contract that cannot hand it back (no pointer in their
+// results); uses in a block that returns (return ctx.ChildContext(results)) come after every other call.
+func (g *gen) privateListAnalysis() {
+	g.privLists = map[*ssa.Call]bool{}
+	g.privParams = map[*ssa.Parameter]bool{}
+	if g.con != nil {
+		for _, name := range g.con.Private {
+			for _, p := range g.fn.Params {
+				if p.Name() != name {
+					continue
+				}
+				if p.Referrers() != nil && g.keptPrivate(*p.Referrers()) {
+					g.privParams[p] = true
+				} else {
+					g.privViolations = append(g.privViolations, name)
+				}
+			}
+		}
+	}
+	for _, b := range g.fn.Blocks {
+		for _, in := range b.Instrs {
+			c, ok := in.(*ssa.Call)
+			if !ok || c.Referrers() == nil {
+				continue
+			}
+			if callee := c.Call.StaticCallee(); callee == nil || callee.String() != "container/list.New" {
+				continue
+			}
+			if g.keptPrivate(*c.Referrers()) {
+				g.privLists[c] = true
+			}
+		}
+	}
+}
+
+// keptPrivate: the uses of a list value keep it private (see privateListAnalysis).
+func (g *gen) keptPrivate(refs []ssa.Instruction) bool {
+	{
+		{
+			priv := true
+			for _, r := range refs {
+				if _, ok := r.(*ssa.DebugRef); ok {
+					continue
+				}
+				exit := false
+				if blk := r.Block(); blk != nil && len(blk.Instrs) > 0 {
+					_, exit = blk.Instrs[len(blk.Instrs)-1].(*ssa.Return)
+				}
+				u, isCall := r.(*ssa.Call)
+				if !isCall {
+					if !exit {
+						priv = false
+					}
+					continue
+				}
+				callee := u.Call.StaticCallee()
+				if callee == nil {
+					if !exit {
+						priv = false
+					}
+					continue
+				}
+				if _, isModel := models[callee.String()]; isModel && strings.HasPrefix(callee.String(), "(*container/list.") {
+					continue
+				}
+				con := g.P.contractFor(callee)
+				if con != nil && !con.flag("synth") && !unknownFrame(con) && !g.exposesHeap(callee.Signature) {
+					continue
+				}
+				if !exit {
+					priv = false
+				}
+			}
+			return priv
+		}
+	}
+}
+
+// assumeNotPrivate: a callee cannot return a list this function keeps to itself and did not pass in.
+func (g *gen) assumeNotPrivate(c *ssa.CallCommon, sig *types.Signature, res []string) {
+	if len(g.privLists) == 0 && len(g.privParams) == 0 {
+		return
+	}
+	var privs []ssa.Value
+	for pc := range g.privLists {
+		privs = append(privs, pc)
+	}
+	for pp := range g.privParams {
+		privs = append(privs, pp)
+	}
+	for _, pc := range privs {
+		t, ok := g.vals[pc]
+		if !ok {
+			continue
+		}
+		passed := false
+		for _, a := range c.Args {
+			if a == pc {
+				passed = true
+			}
+		}
+		if passed {
+			continue
+		}
+		for i, rt := range g.resultSorts(sig) {
+			if i >= len(res) {
+				break
+			}
+			for _, p := range g.listPointersIn(res[i], rt, 0) {
+				g.assume(sNot(sEq(p, t)))
+			}
+		}
+	}
+}
+
+// listPointersIn: the *list.List-typed components of a value of type t (through struct fields).
+func (g *gen) listPointersIn(v string, t types.Type, depth int) []string {
+	if depth > 3 {
+		return nil
+	}
+	if isListPtr(t) {
+		return []string{v}
+	}
+	if st, ok := t.Underlying().(*types.Struct); ok {
+		if p := namedPkg(t); p != "" && !g.P.isYq(p) {
+			return nil
+		}
+		var out []string
+		srt := g.sorts.sortOf(t)
+		for i := 0; i < st.NumFields(); i++ {
+			out = append(out, g.listPointersIn(app(g.sorts.fieldAcc(srt, i), v), st.Field(i).Type(), depth+1)...)
+		}
+		return out
+	}
+	return nil
 }
 
 func (g *gen) bumpTop(st *state) string {
@@ -934,6 +1089,7 @@ func (P *Program) generate(fn *ssa.Function, con *Contract, opts genOpts) (vc *V
 	order := g.analyseLoops()
 	g.zeroOffAnalysis()
 	g.privateAnalysis()
+	g.privateListAnalysis()
 	g.siteAnalysis()
 	// entry state
 	st := &state{heap: map[string]string{}, cells: map[*ssa.Alloc]string{}, epoch: "0"}
@@ -957,6 +1113,9 @@ func (P *Program) generate(fn *ssa.Function, con *Contract, opts genOpts) (vc *V
 		g.locs[fv] = &loc{kind: locCell, base: t, typ: deref(fv.Type()), vtype: deref(fv.Type())}
 	}
 	g.errFlag = "false"
+	for _, name := range g.privViolations {
+		g.oblige("private", "parameter "+name+" is declared private but the body lets it out of its hands", fn.Pos(), "false", nil)
+	}
 	// preconditions
 	if con != nil {
 		e := g.entryEnv(st)
@@ -1001,11 +1160,36 @@ func (g *gen) assumeAllocated(st *state, t string, ty types.Type) {
 	case *types.Basic:
 		if isString(ty) {
 			g.assume(app("<=", app("str.len", t), "72057594037927936"))
+		} else if isInt(ty) {
+			// machine integers: every value of the type lies in its range
+			bits, signed := intRange(ty)
+			lo, hi := "0", new(big.Int).Sub(new(big.Int).Lsh(big.NewInt(1), uint(bits)), big.NewInt(1)).String()
+			if signed {
+				lo = "(- " + new(big.Int).Lsh(big.NewInt(1), uint(bits-1)).String() + ")"
+				hi = new(big.Int).Sub(new(big.Int).Lsh(big.NewInt(1), uint(bits-1)), big.NewInt(1)).String()
+			}
+			g.assume(sAnd(app("<=", lo, t), app("<=", t, hi)))
 		}
 	case *types.Slice:
 		b, o, l := g.sliceParts(t)
 		g.assume(sAnd(app(">=", b, "0"), app("<=", b, st.top), app(">=", l, "0"), app("<=", l, "72057594037927936"), app(">=", o, "0"), app("<=", o, "72057594037927936"),
 			sImp(sEq(b, "0"), sEq(l, "0"))))
+	case *types.Struct:
+		// a struct value: each of its components is a value of its type
+		if p := namedPkg(ty); p != "" && !g.P.isYq(p) {
+			return
+		}
+		sst := ty.Underlying().(*types.Struct)
+		if sst.NumFields() > 12 {
+			return
+		}
+		srt := g.sorts.sortOf(ty)
+		for i := 0; i < sst.NumFields(); i++ {
+			switch sst.Field(i).Type().Underlying().(type) {
+			case *types.Pointer, *types.Map, *types.Slice, *types.Basic:
+				g.assumeAllocated(st, app(g.sorts.fieldAcc(srt, i), t), sst.Field(i).Type())
+			}
+		}
 	}
 }
 
@@ -1234,6 +1418,21 @@ func calledName(c *ssa.CallCommon) string {
 	if callee := c.StaticCallee(); callee != nil {
 		return callee.Name()
 	}
+	// a call through a function value: the field or parameter that holds it
+	switch v := c.Value.(type) {
+	case *ssa.Field:
+		if st, ok := v.X.Type().Underlying().(*types.Struct); ok {
+			return st.Field(v.Field).Name()
+		}
+	case *ssa.UnOp:
+		if fa, ok := v.X.(*ssa.FieldAddr); ok {
+			if st, ok := deref(fa.X.Type()).Underlying().(*types.Struct); ok {
+				return st.Field(fa.Field).Name()
+			}
+		}
+	case *ssa.Parameter:
+		return v.Name()
+	}
 	return ""
 }
 
@@ -1288,6 +1487,15 @@ func (g *gen) siteAsserts(instr ssa.Instruction, c *ssa.CallCommon, st *state) {
 		}
 		g.siteInstr = instr
 		e := g.pointEnv(instr.Block(), st, func(p *ssa.Phi) string { return g.vals[p] })
+		// arg0, arg1, ...: the values the call is about to pass (arg0 is the receiver of a method call)
+		var actuals []ssa.Value
+		if c.IsInvoke() {
+			actuals = append(actuals, c.Value)
+		}
+		actuals = append(actuals, c.Args...)
+		for i, a := range actuals {
+			e.names[fmt.Sprintf("arg%d", i)] = g.goVal(g.val(st, a), a.Type())
+		}
 		lbl := s.Label
 		if lbl == "" {
 			lbl = s.Text
